@@ -9,11 +9,15 @@ pub fn prop() -> Prop {
 }
 
 fn gen_t(r: &mut Rng) -> f64 {
-    match r.below(8) {
+    match r.below(10) {
         0 => 0.0,
         1 => 1.0,
         2 => 0.5,
         3 => r.range_i(0, 8) as f64 / 8.0,
+        // parameters very close to, but not at, the ends (a seeded change that snapped range ends within 1e-9 of 0 or 1
+        // to the stored end points was missed when these were absent)
+        4 => 2f64.powi(-(r.range_i(20, 60) as i32)),
+        5 => 1.0 - 2f64.powi(-(r.range_i(20, 52) as i32)),
         _ => r.unit(),
     }
 }
